@@ -3,6 +3,7 @@
 pub mod hashers;
 pub mod runner;
 pub mod qf;
+pub mod medium;
 pub mod td;
 pub mod hll;
 pub mod cms;
